@@ -1,6 +1,7 @@
 //! unit: streams_state -- connection-level flow control and stream-count arithmetic of StreamsState / Streams
 //! props: C05 C06 C11
-//! trusted: StreamsState::insert (hash-map code) is an opaque contract (changes no counter); connection State::is_closed opaque
+//! trusted: StreamsState::{insert, stream_recv_freed, on_stream_frame} (hash-map / event-queue code) are opaque contracts (change no counter / no flow-control field); connection State::is_closed opaque; the hash-map access expressions of received, received_reset, set_params and SendStream::reset are routed through shims (recv_entry, recv_take, send_entry, send_get: one logged rewrite each); FxHashMap::{contains_key,get} as key membership
+//! cross-unit: shims::Recv::{reset,ingest,is_receiving} and shims::Send::reset carry clauses proved on the real functions in units recv / send_stream
 #![feature(allocator_api)]
 #![allow(unused_imports, dead_code, non_camel_case_types, non_snake_case, unused_variables, unused_mut, unused_assignments)]
 use vstd::prelude::*;
@@ -38,7 +39,7 @@ impl TransportError {
 #[derive(Copy, Clone, PartialEq, Eq)] pub enum SendState { Ready, DataSent { finish_acked: bool }, ResetSent }
 pub struct SendBuffer { pub un: u64 }
 impl SendBuffer { pub fn unacked(&self) -> (r: u64) ensures r == self.un { self.un } }
-pub struct Send { pub state: SendState, pub pending: SendBuffer }
+pub struct Send { pub state: SendState, pub pending: SendBuffer, pub max_data: u64 }
 impl Send {
     #[verifier::external_body] pub fn reset(&mut self) ensures final(self).state == SendState::ResetSent, final(self).pending == old(self).pending { unimplemented!() }
 }
@@ -54,6 +55,15 @@ pub fn send_entry<'a>(m: &'a mut FxHashMap<super::code::StreamId, Option<Box<Sen
         None => send_abs(*old(m), id).is_none() && *final(m) == *old(m),
     }
 { unimplemented!() }
+/// `self.send.get_mut(&id).and_then(|s| s.as_mut())`: an already materialised send half, if any
+#[verifier::external_body]
+pub fn send_get<'a>(m: &'a mut FxHashMap<super::code::StreamId, Option<Box<Send>>>, id: super::code::StreamId) -> (r: Option<&'a mut Send>)
+{ unimplemented!() }
+/// the peer's transport parameters, as far as StreamsState::set_params reads them
+pub struct TransportParameters {
+    pub initial_max_stream_data_uni: VarInt, pub initial_max_stream_data_bidi_local: VarInt, pub initial_max_stream_data_bidi_remote: VarInt,
+    pub initial_max_streams_bidi: VarInt, pub initial_max_streams_uni: VarInt, pub initial_max_data: VarInt,
+}
 /// the reassembly buffer as far as StreamsState's own code looks at it
 pub struct Assembler { pub br: u64 }
 impl Assembler { pub fn bytes_read(&self) -> (r: u64) ensures r == self.br { self.br } }
@@ -241,6 +251,30 @@ impl StreamsState {
         ensures final(self).fc() == old(self).fc(), final(self).recv == old(self).recv, final(self).side == old(self).side,
     { unimplemented!() }
 
+//@ extract quinn-proto/src/connection/streams/state.rs :: impl StreamsState::fn set_params
+//@ props C05
+//@ replace self.send.get_mut(&id).and_then(|s| s.as_mut()) => send_get(&mut self.send, id)
+//@ contract
+        requires old(self).max_remote[0] <= 0x1000_0000_0000_0000
+        ensures
+            // the stream-count and per-stream limits are the ones the peer has just declared (a remembered 0-RTT value does not survive),
+            // the connection data limit never goes down
+            final(self).max[0] == params.initial_max_streams_bidi.0, final(self).max[1] == params.initial_max_streams_uni.0,
+            final(self).max_data == (if params.initial_max_data.0 > old(self).max_data { params.initial_max_data.0 } else { old(self).max_data }),
+            final(self).initial_max_stream_data_uni == params.initial_max_stream_data_uni,
+            final(self).initial_max_stream_data_bidi_local == params.initial_max_stream_data_bidi_local,
+            final(self).initial_max_stream_data_bidi_remote == params.initial_max_stream_data_bidi_remote,
+            final(self).next == old(self).next, final(self).data_sent == old(self).data_sent,
+//@ loop 0
+            invariant
+                self.max[0] == params.initial_max_streams_bidi.0, self.max[1] == params.initial_max_streams_uni.0,
+                self.max_data == (if params.initial_max_data.0 > old(self).max_data { params.initial_max_data.0 } else { old(self).max_data }),
+                self.initial_max_stream_data_uni == params.initial_max_stream_data_uni,
+                self.initial_max_stream_data_bidi_local == params.initial_max_stream_data_bidi_local,
+                self.initial_max_stream_data_bidi_remote == params.initial_max_stream_data_bidi_remote,
+                self.next == old(self).next, self.data_sent == old(self).data_sent, self.max_remote == old(self).max_remote, self.side == old(self).side,
+                old(self).max_remote[0] <= 0x1000_0000_0000_0000,
+//@ end
 //@ extract quinn-proto/src/connection/streams/state.rs :: impl StreamsState::fn ensure_remote_streams
 //@ props C06 C11
 //@ contract
@@ -357,7 +391,10 @@ impl StreamsState {
 //@ contract
         ensures final(self).max_data == (if n.0 > old(self).max_data { n.0 } else { old(self).max_data }),
             final(self).max_data >= old(self).max_data, final(self).data_sent == old(self).data_sent, final(self).unacked_data == old(self).unacked_data,
-            final(self).max == old(self).max, final(self).next == old(self).next,
+            final(self).max == old(self).max, final(self).next == old(self).next, final(self).max_remote == old(self).max_remote, final(self).side == old(self).side,
+            final(self).initial_max_stream_data_uni == old(self).initial_max_stream_data_uni,
+            final(self).initial_max_stream_data_bidi_local == old(self).initial_max_stream_data_bidi_local,
+            final(self).initial_max_stream_data_bidi_remote == old(self).initial_max_stream_data_bidi_remote,
 //@ end
 
 //@ extract quinn-proto/src/connection/streams/state.rs :: impl StreamsState::fn received_max_streams
